@@ -23,3 +23,9 @@ package mime
 //@   requires c != nil
 //@   loop 1 invariant c != nil && config.Extensions != nil
 //@   loop 2 invariant c != nil && config.Extensions != nil
+
+//@ unit helper_frames frames=on props=C11 nilchecks=on filter=`mime\.validateExt$`
+//@ // helpers that other units call through an empty contract ("frame-empty, promises nothing"): here each is verified
+//@ // against exactly that contract (safety and an empty frame), so that assumption is a proved fact
+//@ use @verif/specs/stdlib.spec:stdlib
+//@ func validateExt
